@@ -24,7 +24,8 @@ fn pick_len(rng: &mut Rng, c: &Curve2) -> f64 {
     let n = ls.len();
     match rng.below(9) {
         0 => ls[rng.below(n)],
-        1 => 0.0,
+        // the start of the curve, also as the negative zero that `-x`, `x * -1.0` or `ceil` of a small negative produce
+        1 => if rng.chance(0.35) { -0.0 } else { 0.0 },
         2 => l,
         3 => {
             // inside the last edge
@@ -234,6 +235,12 @@ fn one_curve(rng: &mut Rng) {
 
 pub fn run(rng: &mut Rng, n: usize) {
     for _ in 0..n {
-        one_curve(rng);
+        // a panic of the library outside the individually guarded calls (e.g. in a station lookup the
+        // oracle itself makes) is a failure of that case, not of the run
+        if let Err(e) = guarded(|| one_curve(rng)) {
+            let mut v = Verdict::new();
+            v.require(false, "portion.library_call_panics", || e.clone());
+            emit_oracle_only("curve.between", &Tok::new(), &Tok::new(), &v);
+        }
     }
 }
